@@ -34,6 +34,9 @@ def run(ctx: Ctx):
     from .common import generic_lints
 
     generic_lints(ctx)
+    from .common import dependency_footprints
+
+    dependency_footprints(ctx)
 
 
 def totals_last(ctx: Ctx):
@@ -95,6 +98,20 @@ def grid(ctx: Ctx, cname: str, axis):
                 accepted,
                 "share = sum block at its own position / total over BASE rows/columns only (the block index along the reduced axis must be 0, the other index the numerator's)",
             )
+            # the same clause on the block REFERENCES (whatever the spelling): find the division, compare which blocks
+            # of the sums are referenced above and below the line
+            div = next((n for n in ast.walk(e) if isinstance(n, ast.BinOp) and isinstance(n.op, ast.Div)), None)
+            if div is None:
+                ctx.undecided("reduction-block.refs", where, "no division found", f"S[{i}][{j}] / total of S[{den_i}][{den_j}]")
+                continue
+            num = sorted({(r.i, r.j) for r in block_refs(div.left)})
+            den = sorted({(r.i, r.j) for r in block_refs(div.right)})
+            if not num or not den:
+                ctx.undecided("reduction-block.refs", where, f"numerator blocks {num}, denominator blocks {den}", f"S[{i}][{j}] / total of S[{den_i}][{den_j}]")
+                continue
+            ok = num == [(i, j)] and den == [(den_i, den_j)]
+            ctx.ob("reduction-block.refs", where, f"numerator S{num}, denominator total of S{den}", f"numerator S[({i}, {j})], denominator total of S[({den_i}, {den_j})]", ok,
+                   "the total is taken over BASE rows / columns only, for the numerator's own rows / columns")
 
 
 def stripe(ctx: Ctx):
